@@ -15,6 +15,7 @@ import tempfile
 
 from vlib import crash, fakeos, hrun
 from vlib.hrun import TaskSpec
+from vlib.symx import Inconclusive
 from vlib.runner import Space, Canary, rewrite
 
 ID = "C12"
@@ -137,11 +138,9 @@ def make(only):
                     p0.cleanup()
                 _L[cfg] = r0.get("lines", 0)
             L = _L[cfg]
-            kb = g.choose("kb", (max(L, 1) + 31) // 32)
+            kb = g.choose("kb", (max(L, 1) + 31) // 32 + 1)        # one block beyond the measured count, see below
             g.shard_point()
             k = kb * 32 + g.choose("ko", 32)
-            if k >= L:
-                return {"nontrivial": False, "sample": None}
         else:
             g.shard_point()
         proj, arch = setup(prior, stale, corruption)
@@ -163,6 +162,8 @@ def make(only):
                     g.require(False, "restore:harness-child-error", "%s; %s" % (out["child_error"], D))
                 status = "killed" if out["killed"] else out.get("result")
                 where = out.get("killed_at")
+                if out["killed"] and k >= L + 16:
+                    raise Inconclusive("line numbering is not stable: the run without a fault had %d line events, an identical run reached %d (%s)" % (L, k, where))
                 D += " killed at line event %d (%s)" % (k, where)
             rows_after = proj.index_rows()
             expect_ok = (corruption == "none")
